@@ -347,8 +347,15 @@ class Ctx:
 
     def known_findings(self):
         if self._kf is None:
+            self._kf = []
             p = os.path.join(VERIF, "known_findings.json")
-            self._kf = json.load(open(p)).get("findings", []) if os.path.exists(p) else []
+            if os.path.exists(p):
+                self._kf += json.load(open(p)).get("findings", [])
+            d = os.path.join(VERIF, "known_findings.d")
+            if os.path.isdir(d):
+                for f in sorted(os.listdir(d)):
+                    if f.endswith(".json"):
+                        self._kf += json.load(open(os.path.join(d, f))).get("findings", [])
         return self._kf
 
     def finish(self, level, coverage, assumptions=None, extra=None):
